@@ -1035,6 +1035,8 @@ def check_sweep_skeleton(prog, rep, m):
         a = c[1]
         keyat = _one(a[3]) if len(a) == 4 and isinstance(a[3], Rat) else None
         okkey = keyat is not None and keyat.name in ('read', 'cell?') and keyat.args[0] == node.name and keyat.args[1] == Rat.const(C['TN_KEY_ID'])
+        # ... or the very value that was just stored there (the local the key was computed into, instead of reading it back)
+        okkey = okkey or (len(a) == 4 and isinstance(a[3], Rat) and a[3] == pre.get(repr(Rat.const(C['TN_KEY_ID']))))
         pa = push[0][1][1]
         okpush = len(pa) == 2 and isinstance(pa[1], Rat) and _one(pa[1]) is not None and _one(pa[1]).name == 'unpack' and \
             'call:_delete_from_tree' in repr(_one(pa[1]).args[0]) and _one(pa[1]).args[1] == Rat.const(1)
@@ -1062,8 +1064,9 @@ def check_sweep_skeleton(prog, rep, m):
     whyv = ''
     if len(q) == 1 and tree is not None:
         a = q[0][1]
-        cellk = lambda r, fld: isinstance(r, Rat) and _one(r) is not None and _one(r).name in ('read', 'cell?') and \
-            _one(r).args[0] == node.name and _one(r).args[1] == Rat.const(C[fld])
+        cellk = lambda r, fld: (isinstance(r, Rat) and _one(r) is not None and _one(r).name in ('read', 'cell?') and
+                                _one(r).args[0] == node.name and _one(r).args[1] == Rat.const(C[fld])) or \
+            (isinstance(r, Rat) and r == pre.get(repr(Rat.const(C[fld]))))       # the field read back, or the value just stored in it
         okq = len(a) == 6 and a[0] is tree[0] and a[1] is tree[1] and cellk(a[3], 'TN_KEY_ID') and a[4] == ANG and cellk(a[5], 'TN_GRAD_1')
         if len(vis) == 1:
             j, c = vis[0]
@@ -1080,11 +1083,19 @@ def check_sweep_skeleton(prog, rep, m):
             okg = len(extra) == 1 and extra[0][0] == 'cmp' and extra[0][1] == '<=' and any(
                 _pos_multiple(extra[0][3], qv - Rat.atom(x)) for qv in qvals for x in guard_atoms(extra)
                 if isinstance(x, App) and x.name in ('read', 'cell?') and x.args[0] == node.name and x.args[1] == Rat.const(C['TN_GRAD_1']))
+            g1_ = pre.get(repr(Rat.const(C['TN_GRAD_1'])))
+            if not okg and isinstance(g1_, Rat) and len(extra) == 1 and extra[0][0] == 'cmp' and extra[0][1] == '<=':
+                okg = any(_pos_multiple(extra[0][3], qv - g1_) for qv in qvals)       # compared with the gradient just stored in the node
             va = c[1]
             keys = [x for x in walk_atoms(va[3]) if isinstance(x, App) and x.name in ('read', 'cell?') and x.args[0] == node.name] if len(va) == 4 and isinstance(va[3], Rat) else []
             okva = False
             if len(keys) == 1 and keys[0].args[1] == Rat.const(C['TN_KEY_ID']):
                 sp = Spec(prog, {'K__': Rat.atom(keys[0]), 'E1__': ae('AE_ELEV_1'), vp_elev: Rat.sym(vp_elev), vp_target: Rat.sym(vp_target)}, m)
+                okva = sp.it.as_scalar(sp.expr(roles.call(m.funcs['_get_vertical_ang'], velev=vp_elev, key='K__', elev='E1__ + %s' % vp_target))) == va[3]
+            elif not keys and isinstance(pre.get(repr(Rat.const(C['TN_KEY_ID']))), Rat) and len(va) == 4:
+                # the key passed as the local it was computed into: the expectation is built with the value stored in the node
+                sp = Spec(prog, {'K__': pre[repr(Rat.const(C['TN_KEY_ID']))], 'E1__': ae('AE_ELEV_1'), vp_elev: Rat.sym(vp_elev),
+                                 vp_target: Rat.sym(vp_target)}, m)
                 okva = sp.it.as_scalar(sp.expr(roles.call(m.funcs['_get_vertical_ang'], velev=vp_elev, key='K__', elev='E1__ + %s' % vp_target))) == va[3]
             okargs = len(va) == 4 and _param_name(va[0]) == grid and va[1] == rc('E_ROW_ID') and va[2] == rc('E_COL_ID')
             okvis = okg and okva and okargs and under(c[2], CENTER) and not under(c[2], ENTER) and not under(c[2], EXIT)
